@@ -1,7 +1,8 @@
 From Coq Require Import Extraction ExtrOcamlBasic.
 From BV Require Import lib.ExtractBase lib.Ints model.CryptoBase model.CryptoMD model.CryptoSHA256
   model.CryptoSHA1 model.CryptoSHA512 model.CryptoRIPEMD160 model.CryptoHMAC model.CryptoHMACInst
-  model.CryptoChaCha model.CryptoPoly1305 model.CryptoAEAD model.CryptoSipHash model.CryptoSHA3.
+  model.CryptoChaCha model.CryptoPoly1305 model.CryptoAEAD model.CryptoSipHash model.CryptoSHA3
+  model.CryptoSHA256D64 model.CryptoHashWrap model.CryptoPoly1305Limbs model.CryptoAES.
 Extraction "model.ml" extract_base zeros
   sha256_spec csha256_stream sha256d64_spec
   sha1_spec csha1_stream sha512_spec csha512_stream ripemd160_spec cripemd160_stream
@@ -11,4 +12,8 @@ Extraction "model.ml" extract_base zeros
   aead_encrypt_spec aead_decrypt_spec aead_encrypt aead_decrypt fsaead_new fsaead_encrypt_seq fsaead_encrypt fsaead_decrypt
   bip324_packet_spec
   siphash24_spec csiphasher_stream csiphasher_run presalted_siphash_u256 presalted_siphash_u256_extra
-  siphash13uj_spec uj_stream sha3_256_spec sha3_stream keccak_f keccakf_cpp.
+  siphash13uj_spec uj_stream sha3_256_spec sha3_stream keccak_f keccakf_cpp
+  sha256d64_dispatch hash256_spec hash160_spec tagged_hash_spec bip32_hash_spec
+  chash256_stream chash160_stream tagged_hash_stream bip32_hash_model murmurhash3
+  donna_stream
+  aes256_encrypt_block_spec aes256_decrypt_block_spec cbc_encrypt cbc_decrypt cbc_encrypt_spec cbc_decrypt_spec pkcs7_pad pkcs7_unpad.
